@@ -16,8 +16,17 @@ import (
 )
 
 func (sc Scenario) consts(loadMode string, maxCrashes int) string {
-	return fmt.Sprintf(" Others = %d\n PhaseLen = %d\n DealBlock = %d\n AccBlock = %d\n LateCheckin = %d\n Overlap = %s\n SyncEvery = %d\n SyncOff = %d\n LoadMode = %q\n MaxCrashes = %d\n",
-		sc.Cfg.N-1, sc.Cfg.PhaseLen, sc.DealBlock, sc.AccBlock, sc.LateBlock, boolText(sc.Cfg.Overlap), sc.SyncEvery, sc.SyncOff, loadMode, maxCrashes)
+	return fmt.Sprintf(" Others = %d\n PhaseLen = %d\n DealBlock = %d\n AccBlock = %d\n LateCheckin = %d\n Overlap = %s\n Gov = %s\n DownUntil = %d\n PurgeMode = %q\n SyncEvery = %d\n SyncOff = %d\n LoadMode = %q\n MaxCrashes = %d\n",
+		sc.Cfg.N-1, sc.Cfg.PhaseLen, sc.DealBlock, sc.AccBlock, sc.LateBlock, boolText(sc.Cfg.Overlap), boolText(sc.Gov), sc.DownUntil, purgeMode(loadMode), sc.SyncEvery, sc.SyncOff, map[bool]string{true: "nilsafe", false: loadMode}[loadMode == "mismatch"], maxCrashes)
+}
+
+// the documented alternatives are selected through one name: "gobzero" (DecodePureDKG before the
+// repair) and "mismatch" (the purge of the keyper's own vote deletes nothing)
+func purgeMode(alt string) string {
+	if alt == "mismatch" {
+		return "mismatch"
+	}
+	return "match"
 }
 
 // CrashGen is what TLC produced for the KeyperCrash model.
@@ -90,7 +99,11 @@ func GenerateCrash(c *core.Ctx, sc Scenario, maxCrashes int) (*CrashGen, error) 
 	}
 	// the documented alternative (behaviour of shdb.DecodePureDKG before the repair): TLC must still
 	// find that a reload during the dealing phase changes the outcome
-	acfg := "CONSTANTS\n" + sc.consts("gobzero", 1) + " Emit = FALSE\nSPECIFICATION Spec\nINVARIANT EmitBad\nINVARIANT Safety\nCHECK_DEADLOCK FALSE\n"
+	alt := "gobzero"
+	if sc.Gov {
+		alt = "mismatch" // the alternative that belongs to the governance prefix
+	}
+	acfg := "CONSTANTS\n" + sc.consts(alt, 1) + " Emit = FALSE\nSPECIFICATION Spec\nINVARIANT EmitBad\nINVARIANT Safety\nCHECK_DEADLOCK FALSE\n"
 	ares, err := tlc.Run(tlc.Opts{Module: mod, CfgText: acfg, Files: files, Workers: 2, Timeout: 10 * time.Minute, HeapGB: 4})
 	if err == nil && ares.Violation {
 		g.AltViol = ares.ViolatedWhat
@@ -222,7 +235,7 @@ func CheckC08(c *core.Ctx) int {
 	total["exhaustive"] = c.Thorough()
 	total["spec_level_counterexamples"] = leads
 	total["rule"] = "per scenario (fixed schedule): TLC explores KeyperCrash exhaustively with a bounded number of crashes (safety monitors as invariants, completion and outbox drain as temporal properties under weak fairness, no state constraint) and prints every abstract crash behaviour; " +
-		"on the code side the schedule is re-run once per crash case: connection dropped before the k-th client->server protocol message of the keyper under test (quick: every 6th k and every commit point; thorough: every k), " +
+		"on the code side the schedule is re-run once per crash case: connection dropped before the k-th client->server protocol message of the keyper under test (quick: every 8th k and every commit point; thorough: every k), " +
 		"connection dropped after applying a commit / autocommit delete, process death between an accepted broadcast and the outbox delete for every broadcast, the TLC behaviours concretised on the fly, and (thorough) pairs; " +
 		"evaluations = cases executed; distinct_nontrivial = distinct descriptions of where the faults actually fired (protocol message, statement, step) over the cases in which all faults fired"
 	if err := ev.Write(ev.Evidence{PropertyID: c.Prop, Tier: c.Tier, Seed: c.Seed, Level: "model_checking", Coverage: total,
@@ -283,7 +296,7 @@ func checkScenario(c *core.Ctx, sc Scenario) scenarioResult {
 	rng := rand.New(rand.NewSource(c.Seed + 5))
 	var cases []CrashCase
 	cases = append(cases, CrashCase{Name: "crash-free"})
-	stride := 6
+	stride := 8
 	if c.Thorough() {
 		stride = 1
 	}
@@ -308,7 +321,7 @@ func checkScenario(c *core.Ctx, sc Scenario) scenarioResult {
 		cases = append(cases, CrashCase{Name: fmt.Sprintf("tm-afteraccept-%d", j), Faults: []Fault{{Kind: "tm-afteraccept", At: j}}})
 	}
 	abstract := g.Behaviours
-	maxAbs := 30
+	maxAbs := 24
 	if c.Thorough() {
 		maxAbs = 1200
 	}
